@@ -33,6 +33,9 @@ THEOREMS = [
     "plain_agrees",
     "detach_by_equality_refuted",
     "unset_by_equality_refuted",
+    "replaceChild_earlier_sibling_refuted",
+    "append_does_not_detach_refuted",
+    "clone_loses_inherited_attribute_prefix_refuted",
     "internal_programs_refine",
     "import_apply_frame",
     "import_schema_frame_own",
@@ -1674,11 +1677,12 @@ def run(ck):
     ck.notes = [
         "identity of an Element = its allocation number (order of construction; Element.clone builds the new "
         "root first and then the children in order, which the harness reads back by walking the clone)",
-        "the reference is partial: nothing is claimed for an edit that (a) names a node pruned away earlier, "
-        "(b) appends/inserts a node that still has a parent or into its own subtree, (c) calls p.remove(c) on a "
-        "non-parent, (d) replaces a child by itself, by a sibling under the same parent, by an ancestor or by "
-        "repeated nodes, (e) unsets an attribute when an earlier attribute of the element has the same local "
-        "name, (f) uses an empty path or a single path step written with slashes in childrenAtPath; the model "
+        "the reference is partial: nothing is claimed for an edit that (a) appends/inserts/index-assigns a node "
+        "that still has a parent (known finding C19:append-does-not-detach) or into its own subtree, (b) replaces "
+        "a child by itself, by a sibling under the same parent (known finding "
+        "C19:replaceChild-content-is-earlier-sibling), by an ancestor or by repeated nodes, (c) unsets a PREFIXED "
+        "attribute name or removes an attribute object when an earlier attribute of the element has the same local "
+        "name, (d) uses an empty path in childrenAtPath; the model "
         "still follows the code there and c19_agrees still compares it with the implementation; after such an "
         "edit c19_spec_ok goes on from the implementation's own state when that state is a forest (no node in "
         "two child lists), so later edits of the history are again checked against the reference",
@@ -1839,7 +1843,7 @@ def run(ck):
                "children, nested in other multirefs) and multiRef nodes (id first or second, duplicate id, text / "
                "empty text / none, own prefix declarations, 0-3 children with repeated names); Document lookups "
                "with 25 paths on the trees of (2).  "
-               "over all 24 operations (half of the histories contain, near the end, one edit deliberately outside the reference's domain).  distinct = distinct "
+               "over all 25 operations (half of the histories contain, near the end, one edit deliberately outside the reference's domain).  distinct = distinct "
                "(setup, history); non-trivial = the history contains at least one edit")
     user_model_disagreements = run_users(ck, quirk)
     ck.exhaustive = False
